@@ -41,14 +41,23 @@ def loops_around(pm, node):
 
 
 def is_inc(n, name):
-    return isinstance(n, ast.AugAssign) and isinstance(n.op, ast.Add) and isinstance(n.target, ast.Name) and n.target.id == name \
-        and isinstance(n.value, ast.Constant) and n.value.value == 1
+    """`name += 1`, `name = name + 1`, `name = 1 + name`"""
+    if isinstance(n, ast.AugAssign) and isinstance(n.op, ast.Add) and isinstance(n.target, ast.Name) and n.target.id == name \
+            and isinstance(n.value, ast.Constant) and n.value.value == 1:
+        return True
+    if isinstance(n, ast.Assign) and len(n.targets) == 1 and isinstance(n.targets[0], ast.Name) and n.targets[0].id == name \
+            and isinstance(n.value, ast.BinOp) and isinstance(n.value.op, ast.Add):
+        l, r = n.value.left, n.value.right
+        one = lambda e: isinstance(e, ast.Constant) and e.value == 1 and not isinstance(e.value, bool)
+        me = lambda e: isinstance(e, ast.Name) and e.id == name
+        return (me(l) and one(r)) or (one(l) and me(r))
+    return False
 
 
 def is_other_write(n, name):
     if isinstance(n, ast.AugAssign) and isinstance(n.target, ast.Name) and n.target.id == name and not is_inc(n, name):
         return True
-    if isinstance(n, ast.Assign) and any(isinstance(t, ast.Name) and t.id == name for t in n.targets):
+    if isinstance(n, ast.Assign) and any(isinstance(t, ast.Name) and t.id == name for t in n.targets) and not is_inc(n, name):
         return True
     return False
 
@@ -75,8 +84,14 @@ class Checker:
         self.add(kind, label, False, detail, definite=False)
 
     # ---------------------------------------------------------------- numbering --
-    def step_discipline(self, counter, numbered, unnumbered, label="one-increment-per-numbered-image", loop=None):
-        """numbered / unnumbered: predicates on AST nodes marking the append events."""
+    def step_discipline(self, counter, numbered, unnumbered, label="one-increment-per-numbered-image", loop=None, unfollowed=None):
+        """numbered / unnumbered: predicates on AST nodes marking the append events; `unfollowed`: mutations of the image list that the
+        analysis does not follow (then the obligation is `unknown`: the native replayer decides)."""
+        if unfollowed is not None:
+            uf = [n for n in ast.walk(self.fn) if unfollowed(n)]
+            if uf:
+                return self.unknown("numbering", label, f"the image list is also changed in a way the analysis does not follow (line {LN(uf[0])}: "
+                                                        f"{ast.unparse(uf[0])[:60]})")
         sites = [n for n in ast.walk(self.fn) if numbered(n)]
         if not sites:
             return self.unknown("numbering", label, "no numbered image append found")
@@ -132,7 +147,7 @@ class Checker:
         """`counter = 0` exactly once in `fn`, outside every loop, and fn is the per-document function."""
         fn = fn or self.fn
         pm = parent_map(fn)
-        inits = [n for n in ast.walk(fn) if isinstance(n, (ast.Assign, ast.AnnAssign)) and
+        inits = [n for n in ast.walk(fn) if isinstance(n, (ast.Assign, ast.AnnAssign)) and not is_inc(n, counter) and
                  any(isinstance(t, ast.Name) and t.id == counter for t in (n.targets if isinstance(n, ast.Assign) else [n.target]))]
         zero = [n for n in inits if isinstance(n.value, ast.Constant) and n.value.value == 0]
         if len(zero) != 1 or len(inits) != len(zero) + len([n for n in inits if n not in zero and self._threaded(n, counter)]):
@@ -177,6 +192,11 @@ def payload_source(ck: Checker, call, payload_kw, wrap=None):
 def read_def(ck: Checker, name_node, at, reads):
     """The container read `X = <obj>.<read>(P)` reaching `at`, or (None, why)."""
     b = reaching(ck.fn, ck.pm, name_node.id, at)
+    for _ in range(4):          # follow plain renamings `a = b`
+        if b is not None and b.kind == "assign" and isinstance(b.value, ast.Name):
+            b = reaching(ck.fn, ck.pm, b.value.id, b.node)
+        else:
+            break
     if b is None:
         return None, f"no unique reaching definition of {name_node.id}"
     if b.kind != "assign":
